@@ -179,6 +179,10 @@ func (s *DDSketch) GetValueAtQuantile(quantile float64) (float64, error) {
 	// function, depending on the architecture and whether FMA operations are used or not by the
 	// compiler.
 	rank := float64(quantile * (count - 1))
+	if rank < 0 {
+		// The total weight is below 1 (fractional or reweighted counts): the lowest rank is 0.
+		rank = 0
+	}
 
 	negativeValueCount := s.negativeValueStore.TotalCount()
 	if rank < negativeValueCount {
